@@ -101,7 +101,7 @@ CHECKS = {
     ),
     'C10': dict(
         level='exploration',
-        units=[U('^TestC10$', (12, 1000, 50), (14, 8000, 80)), U('^TestC10_LongChains$', (3, 60), (2, 1500))],
+        units=[U('^TestC10$', (12, 1000, 50), (14, 8000, 80)), U('^TestC10_LongChains$', (3, 60), (2, 1500)), U('^TestC10_AbsorbedWeights$', (1, 4000), (2, 100000))],
         essential_labels=['op:add', 'op:bad', 'op:badmerge', 'op:merge', 'op:decmerge', 'op:copy', 'op:clear', 'op:reweight', 'op:encdec', 'op:changemapping', 'op:fromdata', 'long-chain:absorb-merge', 'long-chain:random-merge', 'long-chain:absorb-add', 'long-chain:decode-merge', 'long-chain:copies', 'rejected-add', 'zero-weight-add', 'non-dyadic-phase', 'store:dense', 'store:sparse', 'store:paginated', 'long-chain:chain-merge'],
         assumptions=COMMON_ASSUMPTIONS + ["sum bound (8+2k)*2^-52*sum|v*w| plus a few subnormal ulps, k = number of reweight/rescale/decode/merge steps (DESIGN §2 C10)", "after a ChangeMapping nothing is compared with == (bin weights are no longer dyadic)", "values within [1e-50,1e50] so that unit changes keep them far inside every mapping's range"],
     ),
@@ -113,7 +113,7 @@ CHECKS = {
     ),
     'C12': dict(
         level='exploration',
-        units=[U('^TestC12$', (8, 6000), (16, 50000))],
+        units=[U('^TestC12$', (8, 6000), (16, 50000)), U('^TestC12_MonotoneArbitraryWeights$', (2, 6000), (3, 150000))],
         essential_labels=['shape:all-negative', 'shape:all-zero', 'shape:zero+negative', 'shape:single-value', 'shape:sub-minimum', 'shape:mixed', 'after-merge', 'after-clear', 'after-decode', 'same-signed-sum', 'pos:collow', 'pos:colhigh', 'pos:paginated', 'weights-underflowed-to-zero', 'partial-underflow-lost-bins'],
         assumptions=COMMON_ASSUMPTIONS + ["accuracy of min/max/sum w.r.t. raw values is asserted only when no collapsing store took part in the history"],
     ),
